@@ -6,7 +6,7 @@
 //! Space (quick / thorough), all of it enumerated, sharded by a running job index:
 //! * IntVectorWriter: width in {1,2,7,8,13,31,32,33,63,64} / 1..=64 x buffer (items) in
 //!   {0,1,2,3,5,8,64,65} x every item count 0..=min(3*items_per_buffer+2, 200 / 400) x value stream
-//!   {all ones, position pattern ^ seed pattern} x {close, close twice, drop}, pushed one by one; the five
+//!   {all ones, position pattern ^ seed pattern} x {close, close twice, drop, drop while unwinding}, pushed one by one; the five
 //!   `extend` element types at the counts around the flush boundaries; `new` (8 Mbit buffer) at small
 //!   counts and at the counts just below / at / above its first flush for widths {63,64} / {13,31,32,33,63,64}.
 //! * RawVectorWriter: every history of length <= 4 / 5 over a 12-letter alphabet (see `raw_alphabet`);
@@ -36,6 +36,9 @@ enum Ending {
     CloseTwice,
     /// The open writer is dropped.
     Drop,
+    /// The open writer is dropped by the unwinding of an unrelated panic (the statement speaks of dropping,
+    /// whatever causes it; `std::thread::panicking()` is true inside the destructor).
+    DropUnwinding,
 }
 
 #[derive(Serialize, Deserialize, Clone, Copy, Debug, PartialEq, Eq)]
@@ -294,6 +297,20 @@ fn finish<W>(
             read_cmp(path, want, tr, || format!("{}[bytes,{}]", nm.drop, class))?;
             load_check(nm.drop)
         }
+        Ending::DropUnwinding => {
+            tr.at(nm.drop);
+            let w = slot.take();
+            // `resume_unwind` starts an unwind without calling the panic hook; the writer is owned by the frame
+            // that unwinds, so its destructor runs while the thread is panicking.
+            let r = std::panic::catch_unwind(std::panic::AssertUnwindSafe(move || {
+                let _owned = w;
+                std::panic::resume_unwind(Box::new("verif: deliberate unwind"));
+            }));
+            tr.step(1);
+            chk!(tr, r.is_err(), format!("{}[unwinding,harness]", nm.drop), "the deliberate unwind did not happen");
+            read_cmp(path, want, tr, || format!("{}[unwinding,bytes,{}]", nm.drop, class))?;
+            load_check(nm.drop)
+        }
     }
 }
 
@@ -447,7 +464,7 @@ fn run_raw(path: &Path, buf_len: Option<usize>, header: &[u64], pushes: &[RPush]
     if header.is_empty() {
         finish(slot, &RAW_NAMES, ending, tr, path, &want, header_bytes, fm.class(), &|w: &mut RawVectorWriter| w.close(), &|w: &RawVectorWriter| w.is_open(), &load_check)
     } else {
-        assert!(ending != Ending::Drop, "not a C12 case: a writer with a parent header must be closed by the parent");
+        assert!(ending != Ending::Drop && ending != Ending::DropUnwinding, "not a C12 case: a writer with a parent header must be closed by the parent");
         let close = |w: &mut RawVectorWriter| {
             let mut parent = header.to_vec();
             w.close_with_header(&mut parent)
@@ -536,7 +553,7 @@ fn run_case(ctx: &mut Ctx, case: &Case) {
 //-----------------------------------------------------------------------------
 // Enumeration
 
-const ENDINGS: [Ending; 3] = [Ending::Close, Ending::CloseTwice, Ending::Drop];
+const ENDINGS: [Ending; 4] = [Ending::Close, Ending::CloseTwice, Ending::Drop, Ending::DropUnwinding];
 
 fn explore_int(ctx: &mut Ctx, job: &mut u64) {
     let thorough = ctx.tier.is_thorough();
